@@ -6,13 +6,16 @@ from pathlib import Path
 ROOT = Path(__file__).resolve().parent.parent
 BASELINE_OFF = "cd /repo && env -u BOBOCEP_VERIF /venv/bin/python -m pytest -ra -q -p no:cacheprovider --timeout=900 --continue-on-collection-errors"
 
-# id -> (technique, level text, level note, design ref)
-CLAIMED = {
- 'C16': ("Lean 4 proof by induction over the clock-reading list (strictly increasing (second,counter) invariant) + generated-fragment equality lemma + differential correspondence with the real generator",
-         "Proved in Lean for every clock sequence of any length (steps backwards included): the pairs handed out are strictly increasing, hence pairwise distinct. The body of generate() is re-translated from /repo on every run and proved equal to the model; the real class is driven with scripted clocks (exhaustive step sequences to length 6/8, random longer, 8 real threads) and its ids are compared with the model's and checked for duplicates.",
-         "Trusted: Lean kernel; translate/idgen.py; that generate() runs entirely under its lock (checked syntactically), so concurrent calls linearise; decimal rendering of ints. String-level injectivity of the '<urn>_<sec>_<count>' format is proved separately (fmt theorems) or, where not yet proved, exercised by the correspondence only.",
-         "DESIGN.md 4.C16"),
-}
+def load_claimed():
+    """per-property metadata lives next to the check: harness/props/cXX.meta.json
+    with keys technique, level_text, level_note, design_ref."""
+    out = {}
+    for f in sorted((ROOT / 'harness' / 'props').glob('c*.meta.json')):
+        m = json.loads(f.read_text())
+        out[f.name.split('.')[0].upper()] = (m['technique'], m['level_text'], m['level_note'], m.get('design_ref', 'DESIGN.md section 4'))
+    return out
+
+CLAIMED = load_claimed()
 
 def main():
     props = [json.loads(l) for l in (ROOT / 'properties.jsonl').read_text().splitlines() if l.strip()]
